@@ -108,7 +108,7 @@ theorem removeLink_def (db : DB) (t : Nat) (ownFirst : Bool) (owner other : Nat)
     removeLink db t ownFirst owner other =
       { db with links := db.links.filter fun l =>
           !(l.table == t && l.col ownFirst == owner && l.col (!ownFirst) == other) } := by
-  unfold removeLink
+  unfold removeLink removeLinkBy
   congr 1
   apply List.filter_congr
   intro l _
